@@ -214,12 +214,13 @@ class _Lagrangian:
         redY_unique = np.unique(redY)
 
         estimator = None
-        sample_weight_name = self.sample_weight_name
+        fit_params = {self.sample_weight_name: redW}
         if len(redY_unique) == 1:
             logger.debug("redY had single value. Using DummyClassifier")
             estimator = DummyClassifier(strategy="constant", constant=redY_unique)
-            # the dummy takes its weights under scikit-learn's name, whatever the user's estimator calls them
-            sample_weight_name = "sample_weight"
+            # the constant prediction does not depend on the weights, which are all zero
+            # (or undefined) when every signed weight cancels
+            fit_params = {}
             self.n_oracle_calls_dummy_returned += 1
         else:
             # use sklearn.base.clone to clone the estimator.
@@ -230,7 +231,7 @@ class _Lagrangian:
             estimator = clone(estimator=self.estimator, safe=False)
 
         oracle_call_start_time = time()
-        estimator.fit(self.constraints.X, redY, **{sample_weight_name: redW})
+        estimator.fit(self.constraints.X, redY, **fit_params)
         self.oracle_execution_times.append(time() - oracle_call_start_time)
         self.n_oracle_calls += 1
 
